@@ -89,9 +89,20 @@ typedef std::unordered_map<uintptr_t, Mtx, std::hash<uintptr_t>, std::equal_to<u
 static MtxMap* g_mtx;
 static MtxMap& mtx() { if (!g_mtx) g_mtx = new (malloc(sizeof(MtxMap))) MtxMap(); return *g_mtx; }
 
-static void wake_waiters(State st, uintptr_t addr, int max, int reason) {
-  for (int i = 0; i < G.nth && max > 0; i++)
-    if (G.th[i].st == st && G.th[i].wait_addr == addr) { make_runnable(&G.th[i], reason); max--; }
+static int wake_waiters(State st, uintptr_t addr, int max, int reason) {
+  Thread* w[MAXT]; int m = 0;
+  for (int i = 0; i < G.nth; i++)
+    if (G.th[i].st == st && G.th[i].wait_addr == addr) w[m++] = &G.th[i];
+  if (m <= max) { for (int i = 0; i < m; i++) make_runnable(w[i], reason); return m; }
+  // fewer wake-ups than waiters: who gets them is a scheduler decision
+  int n = 0;
+  for (; n < max; n++) {
+    int idx = pick_waiter(m, n);
+    make_runnable(w[idx], reason);
+    for (int j = idx; j + 1 < m; j++) w[j] = w[j + 1];
+    m--;
+  }
+  return n;
 }
 
 void sync_reset_run();
@@ -348,15 +359,13 @@ long syscall(long nr, ...) {
   if (op == FUTEX_WAKE || op == FUTEX_WAKE_BITSET) {
     sync_point(P_FUTEX_WAKE, addr);
     check_sync_object(addr, 4);
-    int n = 0, max = (int)a3;
+    int max = (int)a3;
+    if (max <= 0) return 0;
     bool any = false;
-    for (int i = 0; i < G.nth && n < max; i++)
-      if (G.th[i].st == ST_FUTEX && G.th[i].wait_addr == addr) {
-        if (!any) { hb_release_obj(addr ^ 0x5a5a); any = true; }
-        make_runnable(&G.th[i], W_WOKEN);
-        n++;
-      }
-    return n;
+    for (int i = 0; i < G.nth && !any; i++) any = G.th[i].st == ST_FUTEX && G.th[i].wait_addr == addr;
+    if (!any) return 0;
+    hb_release_obj(addr ^ 0x5a5a);
+    return wake_waiters(ST_FUTEX, addr, max, W_WOKEN);
   }
   errno = ENOSYS;
   return -1;
